@@ -54,6 +54,7 @@ type Step struct {
 	Fresh bool                        `json:"fresh"`
 	Ev    []Ev                        `json:"ev"`
 	Com   map[string]map[string]Entry `json:"com"`
+	View  map[string]map[string]Entry `json:"view"` // in-transaction view after the step (src, borrow)
 }
 type Beh struct {
 	ID    int    `json:"id"`
@@ -128,6 +129,39 @@ func renderOp(i int, s Step) string {
 		return "    panic(\"abort\")\n"
 	}
 	panic("renderOp " + s.Op)
+}
+
+// renderView re-reads names / get(...).code / borrow of every account through the signers' own account
+// references, inside the running transaction, and logs them as one line.
+func renderView(i int) string {
+	var sb strings.Builder
+	fmt.Fprintf(&sb, "    var vw%d = \"view\"\n", i)
+	for _, a := range acctNames {
+		fmt.Fprintf(&sb, "    let vn%[1]d%[2]s = %[2]s.contracts.names\n", i, a)
+		for _, n := range ctrNames {
+			fmt.Fprintf(&sb, "    let vg%[1]d%[2]s%[3]s = %[2]s.contracts.get(name: %[3]q)\n    vw%[1]d = vw%[1]d.concat(\"|%[2]s/%[3]s:\").concat(vn%[1]d%[2]s.contains(%[3]q) ? \"listed\" : \"unlisted\").concat(\",\").concat(vg%[1]d%[2]s%[3]s == nil ? \"nil\" : String.fromUTF8(vg%[1]d%[2]s%[3]s!.code)!).concat(\",\").concat(%[2]s.contracts.borrow<&AnyStruct>(name: %[3]q) != nil ? \"borrowable\" : \"not-borrowable\")\n", i, a, n)
+		}
+	}
+	fmt.Fprintf(&sb, "    log(vw%d)\n", i)
+	return sb.String()
+}
+
+func expectView(v map[string]map[string]Entry) string {
+	out := "view"
+	for _, a := range acctNames {
+		for _, n := range ctrNames {
+			e := entry(v, a, n)
+			listed, c, b := "unlisted", "nil", "not-borrowable"
+			if e.Src != "none" {
+				listed, c = "listed", code(e.Src, n)
+			}
+			if e.Borrow {
+				b = "borrowable"
+			}
+			out += "|" + a + "/" + n + ":" + listed + "," + c + "," + b
+		}
+	}
+	return out
 }
 
 func resSet(s Step) []string {
@@ -269,6 +303,7 @@ func replay(b *Beh, useVM bool) *Fail {
 	w := host.NewWorld()
 	signers := []common.Address{addrs["A1"], addrs["A2"]}
 	var cur []Step
+	var beginView map[string]map[string]Entry
 	var lastCom map[string]map[string]Entry
 	lastEnd := -1
 	for si, s := range b.Steps {
@@ -279,6 +314,7 @@ func replay(b *Beh, useVM bool) *Fail {
 	for si, s := range b.Steps {
 		if s.Op == "begin" || s.Op == "end" {
 			cur = nil
+			beginView = s.View
 			continue
 		}
 		endsTx := s.Op == "commit" || s.Op == "abort" || s.K == "err"
@@ -290,8 +326,24 @@ func replay(b *Beh, useVM bool) *Fail {
 		}
 		var sb strings.Builder
 		sb.WriteString("transaction {\n  prepare(A1: auth(Contracts) &Account, A2: auth(Contracts) &Account) {\n")
+		// expected log lines with the call they belong to (-1: the view read when the transaction begins)
+		var want []string
+		var owner []int
+		var isView []bool
+		if beginView != nil {
+			sb.WriteString(renderView(1000))
+			want, owner, isView = append(want, expectView(beginView)), append(owner, -1), append(isView, true)
+		}
 		for i, c := range cur {
 			sb.WriteString(renderOp(i, c))
+			if c.Op == "abort" || c.K == "err" {
+				continue
+			}
+			want, owner, isView = append(want, expectLog(c)), append(owner, i), append(isView, false)
+			if c.View != nil {
+				sb.WriteString(renderView(i))
+				want, owner, isView = append(want, expectView(c.View)), append(owner, i), append(isView, true)
+			}
 		}
 		sb.WriteString("  }\n}\n")
 		src := sb.String()
@@ -299,10 +351,15 @@ func replay(b *Beh, useVM bool) *Fail {
 		fail := func(kind, op, msg string) *Fail {
 			return &Fail{ID: b.ID, Engine: eng, Kind: kind, Op: op, Step: si, Msg: msg, Source: src, Beh: b}
 		}
-		// which call was running when the transaction stopped: every completed call logged one line
+		// which call was running when the transaction stopped: the owner of the first missing result line
 		running := func() (Step, bool) {
-			if len(r.Logs) < len(cur) {
-				return cur[len(r.Logs)], true
+			for i := len(r.Logs); i < len(want); i++ {
+				if !isView[i] {
+					return cur[owner[i]], true
+				}
+			}
+			if len(r.Logs) >= len(want) && len(cur) > 0 && (cur[len(cur)-1].K == "err") {
+				return cur[len(cur)-1], true
 			}
 			return Step{}, false
 		}
@@ -354,9 +411,7 @@ func replay(b *Beh, useVM bool) *Fail {
 			f.Src = srcClass
 			return f
 		}
-		nDone := len(cur)
 		if wantErr {
-			nDone = len(cur) - 1
 			if s.Op == "abort" {
 				if !strings.Contains(r.Err.Error(), "panic: abort") {
 					return fail("errkind", "abort", fmt.Sprintf("model predicts the abort, runtime failed earlier with %s: %v", r.Class, r.Err))
@@ -370,28 +425,33 @@ func replay(b *Beh, useVM bool) *Fail {
 				return fail("write-on-failure", s.Op, fmt.Sprintf("failed transaction wrote %d registers", len(r.Writes)))
 			}
 		}
-		var want []string
-		for _, c := range cur[:nDone] {
-			want = append(want, expectLog(c))
-		}
 		got := append([]string(nil), r.Logs...)
-		if len(got) == len(want) {
-			for i, c := range cur[:nDone] {
-				if c.Op == "names" {
-					got[i] = normNames(got[i])
-				}
-			}
-		}
 		for i := range want {
+			if i < len(got) && !isView[i] && cur[owner[i]].Op == "names" {
+				got[i] = normNames(got[i])
+			}
 			if i >= len(got) || got[i] != want[i] {
 				g := "<missing>"
 				if i < len(got) {
 					g = got[i]
 				}
-				f := fail("result", cur[i].Op, fmt.Sprintf("call %d (%s %s/%s %s): model=%q runtime=%q", i, cur[i].Op, cur[i].A, cur[i].N, cur[i].S, want[i], g))
-				f.Src = cur[i].S
-				if cur[i].Op == "tryUpdate" {
-					f.Ctx = "tryUpdate-" + cur[i].K
+				if isView[i] {
+					after := "begin"
+					srcClass := ""
+					if owner[i] >= 0 {
+						c := cur[owner[i]]
+						after, srcClass = c.Op+":"+c.K, c.S
+					}
+					f := fail("tx-view", "view", fmt.Sprintf("names/get/borrow read inside the transaction after %s: model=%q runtime=%q", after, want[i], g))
+					f.Ctx = "after=" + after
+					f.Src = srcClass
+					return f
+				}
+				c := cur[owner[i]]
+				f := fail("result", c.Op, fmt.Sprintf("call %d (%s %s/%s %s): model=%q runtime=%q", owner[i], c.Op, c.A, c.N, c.S, want[i], g))
+				f.Src = c.S
+				if c.Op == "tryUpdate" {
+					f.Ctx = "tryUpdate-" + c.K
 				}
 				return f
 			}
